@@ -49,5 +49,4 @@ def run(ctx):
                         "Wait(timeout) is not driven (wall clock)"]
 
 def replay(ctx, rp):
-    log("replay: re-run the check: ./check C19")
-    return 2
+    return vlib.replay_any(ctx, rp)
